@@ -571,7 +571,7 @@ def items_for(tier):
     return items
 
 
-GRAMMAR = {"quick": "thorough", "thorough": "deep"}  # the term grammars are cheap: quick already uses the larger one
+GRAMMAR = {"quick": "thorough", "thorough": "xdeep"}  # the term grammars are cheap: quick already uses the larger one
 
 
 def run(tier: str, seed: int) -> Result:
